@@ -6,11 +6,18 @@
 package main
 
 import (
+	"errors"
 	"fmt"
 	"strconv"
 
+	"github.com/alicebob/miniredis/v2"
 	"github.com/zeromicro/go-zero/core/hash"
 	"github.com/zeromicro/go-zero/core/lang"
+	"github.com/zeromicro/go-zero/core/logx"
+	"github.com/zeromicro/go-zero/core/stores/cache"
+	"github.com/zeromicro/go-zero/core/stores/kv"
+	"github.com/zeromicro/go-zero/core/stores/redis"
+	"github.com/zeromicro/go-zero/core/syncx"
 	"verifh/hx"
 )
 
@@ -27,6 +34,10 @@ type Case struct {
 	Nodes  []Val   `json:"nodes"`
 	Ops    [][]any `json:"ops"` // ["add",n] ["addr",n,replicas] ["addw",n,weight] ["remove",n]
 	Probes []Val   `json:"probes"`
+	// kind "cache" / "kv": a cluster of len(weights) miniredis servers built by cache.New / kv.NewStore;
+	// probes are the keys (strings)
+	Kind    string `json:"kind"`
+	Weights []int  `json:"weights"`
 }
 
 type Out struct {
@@ -166,12 +177,104 @@ func runCase(c Case) (out Out) {
 	return
 }
 
+// ---- users of the ring: cache.New (cacheCluster) and kv.NewStore (clusterStore) -------------
+// For every key, every server is first given its own marker value, so that the server a Get /
+// Set / Del actually talks to can be read off: gets[0] = server read by Get, gets[1] = server
+// written by Set, gets[2] = server on which the multi-key Del removed the key (-3 unless exactly one).
+func runCluster(c Case) (out Out) {
+	out.ID = c.ID
+	out.R = minReplicas
+	n := len(c.Weights)
+	mrs := make([]*miniredis.Miniredis, n)
+	conf := make(cache.ClusterConf, n)
+	for i := range mrs {
+		m, err := miniredis.Run()
+		if err != nil {
+			out.Err = err.Error()
+			return
+		}
+		defer m.Close()
+		mrs[i] = m
+		conf[i] = cache.NodeConf{RedisConf: redis.RedisConf{Host: m.Addr(), Type: redis.NodeType}, Weight: c.Weights[i]}
+		out.Reprs = append(out.Reprs, m.Addr()) // cacheNode.String() and (*redis.Redis).String() are the address
+		row := make([]string, out.R)
+		for j := 0; j < out.R; j++ {
+			row[j] = strconv.FormatUint(hash.Hash([]byte(m.Addr()+strconv.Itoa(j))), 10)
+		}
+		out.VH = append(out.VH, row)
+	}
+	keys := make([]string, len(c.Probes))
+	for i, p := range c.Probes {
+		keys[i] = p.V
+		out.PH = append(out.PH, [2]string{
+			strconv.FormatUint(hash.Hash([]byte(lang.Repr(p.V))), 10),
+			strconv.FormatUint(hash.Hash([]byte(fmt.Sprintf("%d:%v", prime, p.V))), 10),
+		})
+	}
+	quote := func(v string) string {
+		if c.Kind == "cache" {
+			return strconv.Quote(v) // cache values are JSON
+		}
+		return v
+	}
+	var get func(k string) (string, error)
+	var set func(k, v string) error
+	var del func(ks ...string) error
+	if c.Kind == "cache" {
+		cc := cache.New(conf, syncx.NewSingleFlight(), cache.NewStat("c15"), errors.New("not found"))
+		get = func(k string) (v string, err error) { err = cc.Get(k, &v); return }
+		set = func(k, v string) error { return cc.Set(k, v) }
+		del = func(ks ...string) error { return cc.Del(ks...) }
+	} else {
+		st := kv.NewStore(conf)
+		get = st.Get
+		set = st.Set
+		del = func(ks ...string) error { _, err := st.Del(ks...); return err }
+	}
+	only := func(pred func(j int) bool) int {
+		r := -3
+		for j := 0; j < n; j++ {
+			if pred(j) {
+				if r != -3 {
+					return -3
+				}
+				r = j
+			}
+		}
+		return r
+	}
+	rowGet, rowSet, rowDel := make([]int, len(keys)), make([]int, len(keys)), make([]int, len(keys))
+	for i, k := range keys {
+		for j := range mrs {
+			mrs[j].Set(k, quote("m"+strconv.Itoa(j)))
+		}
+		v, err := get(k)
+		rowGet[i] = only(func(j int) bool { return err == nil && v == "m"+strconv.Itoa(j) })
+		err = set(k, "new")
+		rowSet[i] = only(func(j int) bool {
+			got, _ := mrs[j].Get(k)
+			return err == nil && got == quote("new")
+		})
+	}
+	err := del(keys...)
+	for i, k := range keys {
+		rowDel[i] = only(func(j int) bool { return err == nil && !mrs[j].Exists(k) })
+	}
+	out.Gets = [][]int{rowGet, rowSet, rowDel}
+	return
+}
+
 func main() {
+	logx.Disable()
 	var cases []Case
 	hx.ReadCases(&cases)
 	w := hx.NewWriter()
 	defer w.Close()
 	for _, c := range cases {
-		w.Put(runCase(c))
+		if c.Kind == "cache" || c.Kind == "kv" {
+			w.Put(runCluster(c))
+		} else {
+			w.Put(runCase(c))
+		}
 	}
 }
